@@ -458,8 +458,20 @@ def _clone(ctx):
                 first = vs_[0] if len(vs_) == 1 else first
             okd = bool(prod) and prod[0][1][1] == ("dag", first)
             ctx.ob("R-COV", oc, "Q term is |v><v| with Dagger", okd, "v @ Dagger(v)" if okd else f"{show(t)[:80]}", n)
+            # the ket may be a 1-D array or a column: `v @ v.conj().T` of a 1-D array is the scalar <v|v>, which is then broadcast over
+            # the whole of Q (F55); np.outer (or an explicit reshape to a column) does not depend on the rank of the array
+            uses_outer = any(isinstance(x, ast.Call) and (m.resolve_call(oc, x).key or "") == "numpy.outer" for x in ast.walk(n.value))
+            colform = any(isinstance(x, ast.Call) and ((isinstance(x.func, ast.Attribute) and x.func.attr == "reshape") or
+                                                        (m.resolve_call(oc, x).key or "").endswith(("to_density_matrix", "atleast_2d"))) for x in ast.walk(oc.node))
+            ctx.ob("R-SHAPE", oc, "|v><v| is formed independently of the ket's array rank (outer product / explicit column)", uses_outer or colform,
+                   "np.outer(v, conj(v))" if uses_outer else "kets are reshaped to columns first" if colform else
+                   f"`{unparse(n.value)[:70]}`: for kets given as 1-D arrays the matrix product is the inner product <v|v> (a scalar), which += broadcasts over Q "
+                   "-- optimal_clone([e0, e1, e+, e-] as 1-D arrays, [1/4]*4) returns 8.0 instead of 0.75", n)
             if okd:
                 v = first
+                if v[0] == "n":
+                    dfs = [x.value for x in ast.walk(oc.node) if isinstance(x, ast.Assign) and len(x.targets) == 1 and isinstance(x.targets[0], ast.Name) and x.targets[0].id == v[1]]
+                    v = Nn(dfs[0]) if len(dfs) == 1 else v
                 args = [a for a in v[3]] if v[0] == "call" else []
                 argv = [x for _, x in sorted(args)] if args else []
                 star = [x for x in subterms(v) if x == ("conj", ("n", "state"))]
